@@ -273,7 +273,7 @@ def gen_shipped(rnd, classes=None, dyn=None, oracles=('clock', 'member', 'loci')
     ps = sorted({v for k, v in params.items() if isinstance(v, float) and 0 < v < 1})
     return dict(procs=[dict(cls=cls, name=None, params=params)], seq='bare', dyn=dyn, nodes=nodes,
                 edges=edges, maxT=maxT or rnd.choice([3.0, 6.0, 12.0]), seed=rnd.random(), specials=ps, pspecial=0.15,
-                oracles=list(oracles), preattr=(rnd.randrange(1 << 30) if rnd.random() < 0.25 else None), strlabels=rnd.choice([False, False, False, False, False, False, False, True, True, 'big']),
+                oracles=list(oracles), preattr=(rnd.randrange(1 << 30) if rnd.random() < 0.25 else None), strlabels=rnd.choice([False, False, False, False, False, False, False, True, True, 'big', 'digits']),
                 ptypes=rnd.choice([None, None, None, 'int', 'np']))
 
 
